@@ -142,6 +142,7 @@ def check_c01(tier, seed, replay=None, selftest=False):
         chk.cov.update({"states": 1, "transitions": 1, "traces_validated_against_impl": 1, "samples": [replay]})
         return chk.finish()
     exe = build.build_driver("hash", HASH_SRCS)
+    model_check(chk, [("HashImpl", "HashImpl_C01.cfg", 12, 900)] + ([("HashImpl", "HashImpl_2x2.cfg", 12, 1500)] if tier != "quick" else []))
     jobs = hash_jobs(seed, 24 if tier == "quick" else 400)
     outs = run_jobs(jobs, exe, "TraceHash")
     nb, ne = collect(chk, outs, props)
@@ -161,6 +162,7 @@ def _hash_check(pid, tier, seed, replay, per_quick, per_thorough, rejects, rule_
         chk.cov.update({"states": 1, "transitions": 1, "traces_validated_against_impl": 1, "samples": [replay]})
         return chk.finish()
     exe = build.build_driver("hash", HASH_SRCS)
+    model_check(chk, [("HashImpl", "HashImpl_%s.cfg" % pid, 12, 900)] + ([("HashImpl", "HashImpl_2x2.cfg", 12, 1500), ("HashImpl", "HashImpl_refine.cfg", 12, 900)] if tier != "quick" else []))
     jobs = hash_jobs(seed * 7919 + int(pid[1:]), per_quick if tier == "quick" else per_thorough, rejects=rejects)
     outs = run_jobs(jobs, exe, "TraceHash")
     nb, ne = collect(chk, outs, props)
@@ -367,6 +369,7 @@ def check_c15(tier, seed, replay=None, selftest=False):
         chk.cov.update({"states": 1, "transitions": 1, "traces_validated_against_impl": 1, "samples": [replay]})
         return chk.finish()
     exe = build.build_driver("hash", HASH_SRCS)
+    model_check(chk, [("HashImpl", "HashImpl_C15.cfg", 12, 900)])
     rng = random.Random(seed * 31337 + 15)
     jobs = []
     for ai, alg in enumerate(gen_hash.FAMS):
